@@ -949,6 +949,57 @@ theorem runC2_spec (f : Bytes) (bound : Nat) (cmp : Bytes → Bytes → Ordering
 
 end Gkv.Cache
 
+/-! ### … and what such histories read -/
+
+namespace Gkv.Cache
+open Gkv Gkv.Lazy Gkv.Tree
+
+def COp2.wv : COp2 → Bool
+  | .point op => op.wv
+  | .visit _ _ w _ => w
+
+theorem stepC2_reads (f : Bytes) (bound : Nat) (cmp : Bytes → Bytes → Ordering) (fuel : Nat)
+    (c : CTree) (T : Tree) (hc : T.Coherent f bound) (hr : Rep c T) (hf : T.height < fuel) (op : COp2) :
+    ∃ out c' rds, stepC2 f cmp fuel c op = some (out, c', rds) ∧ Rep c' T ∧
+      ∀ rd ∈ rds, Allowed op.wv T rd := by
+  cases op with
+  | point op =>
+    obtain ⟨res, c', rds, e, h1, _, h3⟩ := stepC_spec f bound cmp fuel c T hc hr hf op
+    exact ⟨.one res, c', rds, by simp [stepC2, e], h1, h3⟩
+  | visit asc tgt wv stop =>
+    cases stop with
+    | zero =>
+      obtain ⟨out, c', rds, e, h1, _, h3⟩ := visitC_spec f bound cmp asc wv tgt fuel c T 0 hc hr hf
+      exact ⟨.many out, c', rds, by simp [stepC2, e], h1, h3⟩
+    | succ k =>
+      obtain ⟨out, b', c', rds, e, h1, _, _, h3⟩ :=
+        visitCK_spec f bound cmp asc wv tgt fuel c T 0 (k + 1) hc hr hf (by omega)
+      exact ⟨.many out, c', rds, by simp [stepC2, e], h1, h3⟩
+
+/-- a history none of whose calls asks for a value — lookups, Min/Max, evictions, range visits run
+    to the end or stopped — reads node records and header+key ranges only -/
+theorem runC2_keyonly_reads (f : Bytes) (bound : Nat) (cmp : Bytes → Bytes → Ordering) (fuel : Nat)
+    (T : Tree) (hc : T.Coherent f bound) (hf : T.height < fuel) :
+    ∀ (ops : List COp2) (c : CTree), Rep c T → (∀ op ∈ ops, op.wv = false) →
+    ∃ outs c' rds, runC2 f cmp fuel ops c = some (outs, c', rds) ∧ Rep c' T ∧
+      ∀ rd ∈ rds, Allowed false T rd := by
+  intro ops
+  induction ops with
+  | nil => intro c hr _; exact ⟨[], c, [], rfl, hr, (fun _ h => by cases h)⟩
+  | cons op ops ih =>
+    intro c hr hall
+    obtain ⟨o, c1, r1, e1, hr1, ha1⟩ := stepC2_reads f bound cmp fuel c T hc hr hf op
+    obtain ⟨os, c2, r2, e2, hr2, ha2⟩ := ih c1 hr1 (fun op' h' => hall op' (List.mem_cons_of_mem _ h'))
+    refine ⟨o :: os, c2, r1 ++ r2, by simp only [runC2, e1, e2, bind, Option.bind], hr2, ?_⟩
+    intro rd hrd
+    rcases List.mem_append.mp hrd with h | h
+    · have := ha1 rd h
+      rw [hall op (List.mem_cons_self ..)] at this
+      exact this
+    · exact ha2 rd h
+
+end Gkv.Cache
+
 /-! ### the executable form of `Rep` used by the driver (`cstatein`) -/
 
 namespace Gkv.Cache
